@@ -16,7 +16,7 @@ import (
 func init() {
 	ev.Register(&ev.Spec{
 		ID: "C07", Level: "exploration",
-		Rule:    "pairwise rendezvous matrix: every ordered pair (A, B) of 24 backend-reaching operations (a two-component walk parked in its second step among them) x path relation (same fid, two fids on one path, parent, child, sibling, unrelated, other connection): A is parked at a gate inside its backend call, B is issued, and the harness waits until B has entered the backend, was answered, or the whole process is observed parked (B blocked inside p9); two thirds of the cells run with a history behind A's fid (its entry was renamed into another directory after the fid was bound; B's fid bound before or after the move); the backend's online overlap monitor (interval intersection on a logical clock, conflict relation taken from the File contract) and the per-handle Open counter are the oracle; plus j <= 4 concurrent Tlopen on one fid. Non-trivial: both calls reached the backend or B was observed blocked; distinct by (opA, opB, relation, outcome).",
+		Rule:    "pairwise rendezvous matrix: every ordered pair (A, B) of 24 backend-reaching operations (a two-component walk parked in its second step among them) x path relation (same fid, two fids on one path, parent, child, sibling, unrelated, other connection): A is parked at a gate inside its backend call, B is issued, and the harness waits until B has entered the backend, was answered, or the whole process is observed parked (B blocked inside p9); two thirds of the cells run with a history behind A's fid (its entry was renamed into another directory after the fid was bound; B's fid bound before or after the move; or an earlier Tunlinkat of A's entry was refused by the backend); the backend's online overlap monitor (interval intersection on a logical clock, conflict relation taken from the File contract) and the per-handle Open counter are the oracle; plus j <= 4 concurrent Tlopen on one fid. Non-trivial: both calls reached the backend or B was observed blocked; distinct by (opA, opB, relation, outcome).",
 		Assume:  []string{"memfs computes each call's receiver path from Renamed notifications", "hard links are kept out of the workload", "one scenario at a time per shard process so that 'process parked' is meaningful"},
 		Shards:  shards(8, 16),
 		Timeout: timeout(8*time.Minute, 45*time.Minute),
@@ -183,7 +183,12 @@ func runMatrix(c *ev.Ctx, prop string) {
 			case 2:
 				if c.Thorough() || i%2 == 0 {
 					hist = "moved-both"
+				} else {
+					hist = "refused-unlink"
 				}
+			}
+			if c.Thorough() && (i+rep)%5 == 4 {
+				hist = "refused-unlink"
 			}
 			if cell.ta.path == "/" {
 				hist = ""
